@@ -15,11 +15,12 @@ from vlib import Broken, NCPU, log
 PROPS = {"C08": "model_checking"}
 HARNESS = ["zz_verif_routing_test.go", "zz_verif_life_test.go"]
 PROFILES = {
-    "quick": dict(design=[("life_cur.cfg", 300), ("life_cur_full.cfg", 300), ("life_ideal.cfg", 300)],
-                  gen=[("sim_q.cfg", 150, 40)], limit=1500),
+    "quick": dict(design=[("life_cur.cfg", 900), ("life_cur_full.cfg", 900), ("life_ideal.cfg", 900), ("life_batch.cfg", 900),
+                          ("life_batch_mut.cfg", 900)],
+                  gen=[("sim_q.cfg", 150, 40), ("sim_b.cfg", 60, 40)], limit=1500),
     "thorough": dict(design=[("life_cur.cfg", 300), ("life_cur_full.cfg", 300), ("life_ideal.cfg", 300),
-                             ("life_cur3.cfg", 3000), ("life_ideal3.cfg", 3000)],
-                     gen=[("sim_q.cfg", 1500, 40), ("sim_t.cfg", 800, 60)], limit=30000),
+                             ("life_cur3.cfg", 3000), ("life_ideal3.cfg", 3000), ("life_batch.cfg", 900), ("life_batch_mut.cfg", 900)],
+                     gen=[("sim_q.cfg", 1500, 40), ("sim_t.cfg", 800, 60), ("sim_b.cfg", 600, 40)], limit=30000),
 }
 OBS_RE = re.compile(r'<<(\d+), "(\w+)", "(\w+)", (-?\d+)>>')
 
@@ -56,6 +57,11 @@ def classify(run, viols):
         txt = " ".join(e.get("crash", "") for e in run if e.get("crash"))
         sig.update(clause="crash", cause="closed-chan-send" if "send on closed channel" in txt else "other-panic")
         return sig
+    if "killed" in clauses:
+        # never explained by a listed finding: an older incarnation's step ended a newer incarnation's stream
+        v = [x for x in viols if x[1] == "killed"][0]
+        sig.update(clause="killed", cause="older-incarnation-ends-newer-stream-in-" + v[2])
+        return sig
     if "stole" in clauses:
         v = [x for x in viols if x[1] == "stole"][0]
         cause = {"SUnreg2": "window-steal", "SRmChan": "window-steal", "RExit": "unconditional-cleanup-steal", "RCleanup": "unconditional-cleanup-steal"}.get(v[2], "other-" + v[2])
@@ -74,6 +80,20 @@ def classify(run, viols):
     return sig
 
 
+def retry_schedules():
+    """the receiver holds a task batch for a target shard whose sender is between incarnations (routing retry loop): its stream
+    ends meanwhile / a sender registers meanwhile.  Constructed (the generator reaches them too, rarely)."""
+    A = lambda a, k: {"a": a, "k": k}
+    up = [A("RTerm", 1), A("RSetAck", 1), A("RSetRest", 1)]
+    snd = [A("SSet", 1), A("SAdd", 1), A("SNLookup", 1), A("SNSend", 1)]
+    return [
+        {"id": "retry-exit", "cmds": up + [A("RBatchRetry", 1), A("RExit", 1), A("RCleanup", 1)]},
+        {"id": "retry-deliver", "cmds": up + [A("RBatchRetry", 1)] + snd + [A("RRetry", 1), A("RExit", 1), A("RCleanup", 1)]},
+        {"id": "retry-successor", "cmds": up + [A("RBatchRetry", 1), A("RTerm", 2), A("RSetAck", 2), A("RSetRest", 2), A("RExit", 1), A("RCleanup", 1)]},
+        {"id": "batch-deliver", "cmds": snd + up + [A("RBatch", 1), A("RExit", 1), A("RCleanup", 1)]},
+    ]
+
+
 def run(c, a):
     prof = PROFILES[c.tier]
     c.assumptions += [
@@ -82,6 +102,10 @@ def run(c, a):
     ]
     for cfg, tmo in prof["design"]:
         r = c.tlc("ShardLife", "ShardLife", cfg, workers=12, timeout=tmo, name="design-" + cfg[:-4])
+        if cfg.endswith("_mut.cfg"):
+            if not r.violated:
+                raise Broken("design mutant %s was expected to violate its invariant (vacuity guard)" % cfg)
+            continue
         if r.violated:
             c.notes.append("design-level counterexample in %s: %s" % (cfg, r.violated))
         elif not r.ok:
@@ -109,6 +133,7 @@ def run(c, a):
     import random
     if len(scheds) > prof["limit"]:
         scheds = random.Random(c.seed).sample(scheds, prof["limit"])
+    scheds += retry_schedules()
     binpath = c.go_test_build("proxy", HARNESS, name="life")
     nshard = min(NCPU, max(1, len(scheds) // 25))
     files = []
